@@ -217,7 +217,20 @@ func (e *Env) Exec(ctx context.Context, worker string, op Op) Res {
 		if len(op.AMeta) > 0 {
 			body["accountMetadata"] = op.AMeta
 		}
+		if strings.HasPrefix(op.API, "bulk") {
+			// the same request as the single element of a bulk (atomic or not)
+			if q.Get("force") == "true" {
+				body["force"] = true
+			}
+			return e.execBulkOne(ctx, worker, op, "CREATE_TRANSACTION", body)
+		}
 		r = e.St.Do(ctx, worker, "POST", prefix+"/transactions?"+q.Encode(), body, hdr)
+	case "import":
+		exp := e.St.Do(ctx, worker, "POST", "/v2/"+op.Src+"/logs/export", nil, nil)
+		if exp.Status != 200 {
+			return Res{Err: "harness", Status: exp.Status, Msg: "export failed: " + string(exp.Body)}
+		}
+		r = e.St.Do(ctx, worker, "POST", prefix+"/logs/import", exp.Body, map[string]string{"Content-Type": "application/octet-stream"})
 	case "revert":
 		if op.Force {
 			q.Set("force", "true")
@@ -242,6 +255,64 @@ func (e *Env) Exec(ctx context.Context, worker string, op Op) Res {
 		return Res{Err: "harness", Msg: "unknown op " + op.K}
 	}
 	return e.classify(op, r)
+}
+
+// execBulkOne sends one element through POST /_bulk (atomic when op.API == "bulk-atomic") and classifies
+// the element's result like a stand-alone response.
+func (e *Env) execBulkOne(ctx context.Context, worker string, op Op, action string, data map[string]any) Res {
+	el := map[string]any{"action": action, "data": data}
+	if op.IK != "" {
+		el["ik"] = op.IK
+	}
+	path := "/v2/" + op.L + "/_bulk"
+	if op.API == "bulk-atomic" {
+		path += "?atomic=true"
+	}
+	r := e.St.Do(ctx, worker, "POST", path, []any{el}, nil)
+	res := Res{Status: r.Status}
+	v, err := r.JSON()
+	if err != nil {
+		res.Err = "internal"
+		return res
+	}
+	m, _ := v.(map[string]any)
+	arr, _ := m["data"].([]any)
+	if len(arr) != 1 {
+		if r.Status >= 500 {
+			res.Err = "internal"
+		} else {
+			res.Err = "validation"
+		}
+		res.Code, _ = m["errorCode"].(string)
+		res.Msg, _ = m["errorMessage"].(string)
+		return res
+	}
+	em, _ := arr[0].(map[string]any)
+	if rt, _ := em["responseType"].(string); rt == "ERROR" {
+		code, _ := em["errorCode"].(string)
+		msg, _ := em["errorDescription"].(string)
+		fake := &stack.Resp{Status: 400, Header: r.Header}
+		b, _ := json.Marshal(map[string]any{"errorCode": code, "errorMessage": msg})
+		fake.Body = b
+		if code == "INTERNAL" {
+			fake.Status = 500
+		}
+		if code == "CONFLICT" {
+			fake.Status = 409
+		}
+		if code == "NOT_FOUND" {
+			fake.Status = 404
+		}
+		return e.classify(op, fake)
+	}
+	res.OK = true
+	if d, ok := em["data"].(map[string]any); ok {
+		if id, ok := d["id"].(json.Number); ok {
+			n, _ := strconv.Atoi(string(id))
+			res.ID = n
+		}
+	}
+	return res
 }
 
 func (e *Env) classify(op Op, r *stack.Resp) Res {
@@ -286,6 +357,8 @@ func (e *Env) classify(op Op, r *stack.Resp) Res {
 		res.Err = "not_found"
 	case code == "ALREADY_REVERT":
 		res.Err = "already_reverted"
+	case code == "IMPORT":
+		res.Err = "import"
 	case code == "NO_POSTINGS":
 		res.Err = "no_postings"
 	case code == "METADATA_OVERRIDE":
@@ -589,6 +662,10 @@ func (e *Env) Observe(l string) (LedgerObs, error) {
 		obs.Logs = append(obs.Logs, lg)
 	}
 	sort.Slice(obs.Logs, func(i, j int) bool { return obs.Logs[i].ID < obs.Logs[j].ID })
+	obs.Chain = chainOf(obs.Logs)
+	if obs.Chain == nil {
+		obs.Chain = []int{}
+	}
 
 	vols, err := e.getAll("/v2/" + l + "/volumes?pageSize=100")
 	if err != nil {
